@@ -8,6 +8,7 @@ CONSTANTS
   Ex = 3
   YNorm = FALSE
   Kinds = {"mat", "pert", "resp"}
+  ProdTier = "quick"
 INVARIANT Theorems
 CONSTRAINT Emit
 CHECK_DEADLOCK FALSE
